@@ -55,3 +55,16 @@ pub assume_specification[ u128::checked_pow ](b: u128, e: u32) -> (r: Option<u12
 pub assume_specification[ u64::pow ](b: u64, e: u32) -> (r: u64)
     requires pow(b as nat, e as nat) <= u64::MAX          // debug builds panic, release builds wrap
     ensures r == pow(b as nat, e as nat);
+// comparisons (`==`, `<`, `<=`, `>`, `>=` on Duration, derived in core from (secs, nanos) lexicographically = by value in nanoseconds)
+impl vstd::std_specs::cmp::PartialEqSpecImpl for Duration {
+    open spec fn obeys_eq_spec() -> bool { true }
+    open spec fn eq_spec(&self, o: &Duration) -> bool { self.ns() == o.ns() }
+}
+impl core::cmp::PartialEq for Duration { #[verifier::external_body] fn eq(&self, o: &Duration) -> (r: bool) { unimplemented!() } }
+impl vstd::std_specs::cmp::PartialOrdSpecImpl for Duration {
+    open spec fn obeys_partial_cmp_spec() -> bool { true }
+    open spec fn partial_cmp_spec(&self, o: &Duration) -> Option<core::cmp::Ordering> {
+        if self.ns() < o.ns() { Some(core::cmp::Ordering::Less) } else if self.ns() == o.ns() { Some(core::cmp::Ordering::Equal) } else { Some(core::cmp::Ordering::Greater) }
+    }
+}
+impl core::cmp::PartialOrd for Duration { #[verifier::external_body] fn partial_cmp(&self, o: &Duration) -> (r: Option<core::cmp::Ordering>) { unimplemented!() } }
